@@ -583,9 +583,12 @@ def run_property(ctx, make_jobs, meta):
         violations=len(violations),
     )
     ev["coverage"].update(meta.get("extra_coverage", {}))
-    os.makedirs(os.path.join(VERIF, "evidence"), exist_ok=True)
-    with open(os.path.join(VERIF, "evidence", prop + ".json"), "w") as f:
-        json.dump(ev, f, indent=1)
+    # evidence describes /repo itself; a run against another tree (--repo, mutation self-tests) or a development run
+    # restricted with --jobs must not overwrite it
+    if ctx.repo == os.path.abspath(os.environ.get("VERIF_REPO", "/repo")) and not ctx.jobs_filter:
+        os.makedirs(os.path.join(VERIF, "evidence"), exist_ok=True)
+        with open(os.path.join(VERIF, "evidence", prop + ".json"), "w") as f:
+            json.dump(ev, f, indent=1)
     print("%s property=%s tier=%s jobs=%d obligations=%d discharged=%d bounded=%d/%d known=%d undecided=%d wall=%.1fs"
           % ({0: "OK", 1: "FAIL", 2: "UNDECIDED"}[rc], prop, ctx.tier, len(jobs), n_obl, n_dis, n_b_dis, n_b_obl,
              n_known, len(undecided), wall))
